@@ -490,14 +490,13 @@ pub fn chase(
                 )));
             }
 
-            // Do we have a default value?, i.e. $arg_name(default_value). The first
-            // default met during a chase stands, but a later one must still be taken
-            // off the list, so that the name (not the default) becomes the next needle
+            // Do we have a default value?, i.e. $arg_name(default_value). It is taken off
+            // the list, so that the name (not the default) becomes the next needle. A
+            // default met later in a chase was given further out, for the very argument
+            // the earlier one was meant for, so (as for the parenthesized form below)
+            // it is the one to fall back to
             if parts.len() == 2 {
-                let given = parts.pop().unwrap();
-                if default.is_empty() {
-                    default = given;
-                }
+                default = parts.pop().unwrap();
             }
             chasing = true;
             needle = parts.pop().unwrap();
